@@ -200,6 +200,7 @@ def check_case(case):
 
 def describe(tier):
     d = c06.describe(tier)
+    d["alphabet"] += "; tapes written by file_util --to_cas from disk images of the independent writer (13 file orders of text / data / BASIC / ML files)"
     d["oracle"] = ("strict parse of the whole buffer: per file leader, name-file block with exactly 15 payload bytes (name[8], type, data type, "
                    "gap flag, two addresses), leader, data blocks of 1..255 bytes whose payloads concatenate to the data, EOF block; every block "
                    "$55 $3C type len payload cksum $55 with cksum = (type+len+sum) mod 256; only $00/$55 between blocks")
